@@ -334,6 +334,11 @@ func (t *RTPTransceiver) setSendingTrack(track TrackLocal) error { //nolint:cycl
 		// Similar to above, but for sendrecv transceiver.
 	case track == nil && t.Direction() == RTPTransceiverDirectionSendonly:
 		t.setDirection(RTPTransceiverDirectionInactive)
+	case track == nil && (t.Direction() == RTPTransceiverDirectionRecvonly ||
+		t.Direction() == RTPTransceiverDirectionInactive):
+		// A remote description already turned the sending half off
+		// (e.g. the remote re-offered the section as sendonly): the direction
+		// has nothing left to give up.
 	default:
 		return errRTPTransceiverSetSendingInvalidState
 	}
